@@ -1,6 +1,6 @@
 from __future__ import annotations
 
-from dataclasses import dataclass, field
+from dataclasses import dataclass, field, fields, is_dataclass
 from typing_extensions import List, Any, Optional
 import operator
 import types
@@ -232,9 +232,9 @@ class OperatorMapper:
                     "Membership in a collection that is stored as JSON cannot be translated."
                 )
         if isinstance(left, (list, tuple, set)):
-            expression = right.in_(left)
+            expression = self.map_membership(right, left)
         elif isinstance(right, (list, tuple, set)):
-            expression = left.in_(right)
+            expression = self.map_membership(left, right)
         elif isinstance(left, str) and not isinstance(right, str):
             expression = func.instr(literal(left), right) > 0
         elif not isinstance(left, str) and isinstance(right, str):
@@ -246,6 +246,24 @@ class OperatorMapper:
             expression = func.instr(left, right) > 0
 
         return sa_not(expression) if is_negated else expression
+
+
+    @staticmethod
+    def map_membership(column: Any, values: Any) -> Any:
+        """
+        Map the membership of the value of a column in a collection of plain values.
+
+        :param column: The column.
+        :param values: The collection.
+        :return: SQLAlchemy expression
+        """
+        values = list(values)
+        present_values = [value for value in values if value is not None]
+        expression = column.in_(present_values)
+        if len(present_values) != len(values):
+            # None is in the collection: NULL IN (..., NULL) is not true in SQL
+            expression = or_(expression, column.is_(None))
+        return expression
 
 
 @dataclass
@@ -447,12 +465,28 @@ class EQLTranslator:
 
         if conditions is not None:
             self.sql_query = self.sql_query.where(conditions)
+        self._restrict_other_variables_to_their_classes()
 
     def _reject_variables_that_cannot_be_told_apart(self) -> None:
         """
         Attribute chains are resolved through the class of their variable and every DAO class appears once in the
         FROM clause. Two different variables of the same class (or of classes that inherit from each other) would
         therefore be translated to the same columns and the statement would answer another question.
+        """
+        variables = self._variables_over_classes()
+        for index, first in enumerate(variables):
+            for second in variables[index + 1 :]:
+                if issubclass(first._type_, second._type_) or issubclass(
+                    second._type_, first._type_
+                ):
+                    raise UnsupportedQueryTypeError(
+                        f"The variables {first._name_} and {second._name_} range over the same class, "
+                        f"they cannot be told apart in the translated statement."
+                    )
+
+    def _variables_over_classes(self) -> List[Variable]:
+        """
+        :return: The variables of the query that range over the instances of a class, each of them once.
         """
         variables: List[Variable] = []
         for selected_or_variable in self.select_like._all_variable_instances_:
@@ -463,15 +497,76 @@ class EQLTranslator:
                     continue
                 if not any(variable is known for known in variables):
                     variables.append(variable)
-        for index, first in enumerate(variables):
-            for second in variables[index + 1 :]:
-                if issubclass(first._type_, second._type_) or issubclass(
-                    second._type_, first._type_
-                ):
-                    raise UnsupportedQueryTypeError(
-                        f"The variables {first._name_} and {second._name_} range over the same class, "
-                        f"they cannot be told apart in the translated statement."
-                    )
+        return variables
+
+    def _reject_columns_of_a_shared_table(self, attribute: Attribute) -> None:
+        """
+        Two variables of classes that inherit fields from a common mapped class (siblings) can be joined over their
+        relationships, the mapped classes are told apart by the join. The columns of a variable that is not the
+        selected one would be taken from the one table of the common class, which the selected variable uses as well.
+
+        :param attribute: The attribute chain that is translated to a column.
+        """
+        variable = attribute
+        while isinstance(variable, Attribute):
+            variable = variable._child_
+        if (
+            not isinstance(variable, Variable)
+            or variable is self.select_like.selected_variable
+        ):
+            return
+        for other in self._variables_over_classes():
+            if other is not variable and self._inherit_from_a_common_mapped_class(
+                variable._type_, other._type_
+            ):
+                raise UnsupportedQueryTypeError(
+                    f"The variables {variable._name_} and {other._name_} share the table of a class they both "
+                    f"inherit from, the attributes of {variable._name_} cannot be told apart in the translated "
+                    f"statement."
+                )
+
+    @staticmethod
+    def _inherit_from_a_common_mapped_class(first: type, second: type) -> bool:
+        """
+        :return: True if both classes inherit fields from a common mapped class.
+        """
+        if not isinstance(first, type) or not isinstance(second, type):
+            return False
+        for ancestor in first.__mro__:
+            if not issubclass(second, ancestor) or not is_dataclass(ancestor):
+                continue
+            if fields(ancestor) and get_dao_class(ancestor) is not None:
+                return True
+        return False
+
+    def _restrict_other_variables_to_their_classes(self) -> None:
+        """
+        An attribute that a class inherits is a column of the table of the class that declares it. The statement
+        selects the rows of the selected variable through its own mapped class; a variable that is not selected and
+        ranges over a subclass is restricted to the rows of that subclass here.
+        """
+        selected_variable = self.select_like.selected_variable
+        tables_of_the_selected_class = set(
+            sqlalchemy.inspection.inspect(
+                get_dao_class(selected_variable._type_)
+            ).tables
+        )
+        for variable in self._variables_over_classes():
+            dao_class = get_dao_class(variable._type_)
+            if variable is selected_variable or dao_class is None:
+                continue
+            if self.join_manager.is_table_joined(dao_class):
+                # joined as a mapped class: these are the rows of the class already
+                continue
+            mapper = sqlalchemy.inspection.inspect(dao_class)
+            while (
+                mapper.inherit_condition is not None
+                # a table without fields at the top of both hierarchies is in the statement as a table of the
+                # selected class, no column of the variable is taken from there
+                and mapper.inherits.local_table not in tables_of_the_selected_class
+            ):
+                self.sql_query = self.sql_query.where(mapper.inherit_condition)
+                mapper = mapper.inherits
 
     def evaluate(self) -> List[Any]:
         """
@@ -655,8 +750,14 @@ class EQLTranslator:
 
         if left_dao is anchor_dao:
             target_dao, target_fk, anchor_fk = right_dao, right_fk, left_fk
-        else:
+        elif right_dao is anchor_dao:
             target_dao, target_fk, anchor_fk = left_dao, left_fk, right_fk
+        else:
+            # the joins start at the selected class, the other side of this one would be missing from the statement
+            raise UnsupportedQueryTypeError(
+                f"A join between {left_dao.__name__} and {right_dao.__name__} cannot be expressed, neither of them is "
+                f"the selected class."
+            )
 
         if self.join_manager.is_table_joined(target_dao):
             # the first join decides the ON clause, a second condition between the same two classes would be dropped
@@ -762,7 +863,7 @@ class EQLTranslator:
 
             if len(values) != 1 or (values and not isinstance(values[0], str)):
                 column = self.translate_attribute(query.right)
-                expression = column.in_(values)
+                expression = OperatorMapper.map_membership(column, values)
                 return sa_not(expression) if is_negated else expression
 
         mapper = OperatorMapper()
@@ -775,6 +876,7 @@ class EQLTranslator:
         :param query: The attribute query
         :return: SQLAlchemy column expression
         """
+        self._reject_columns_of_a_shared_table(query)
         attribute_names = self._collect_attribute_chain(query)
         base_class = self._extract_base_class(query)
 
